@@ -24,7 +24,7 @@ Definition yl (c : case) : str -> lres := case_yload (c_oracle c).
 
 (* false: the tree as it is; set to true when fixes/C05-nested-item-no-string-fallback.patch has landed in /repo (and
    drop class 7 from FINDING_CLASSES): the entry's raw text is then retried like a whole-value text *)
-Definition nested_fixed : bool := false.
+Definition nested_fixed : bool := true.   (* /repo 6b79dc9: a nested item falls back to its original string *)
 
 Definition model_ob (c : case) (o : ob) : obs :=
   if o_nested o then obs_of (via_argv_nested pinned (yl c) nested_fixed (c_ty c) (c_items c)) else
